@@ -500,11 +500,11 @@ def matchify(fn: ast.AST) -> bool:
             if not (isinstance(s, ast.If) and not s.orelse and ends(s.body)):
                 break
             ap = _arm_pattern(s.test)
-            if ap is None or ap[3] != "value" or not isinstance(ap[1], (ast.Name, ast.Attribute)):
+            if ap is None or not isinstance(ap[1], (ast.Name, ast.Attribute)):
                 break
             if subj is None:
                 subj = ap
-            elif subj[0] != ap[0]:
+            elif subj[0] != ap[0] or subj[3] != ap[3]:
                 break
             run.append((ap[2], s.body))
             j += 1
